@@ -507,7 +507,11 @@ func runProp(p propDef, tier string, seed int64, only string) int {
 		wg.Add(1)
 		go func(k int) {
 			defer wg.Done()
-			results[k] = runShard(bin, p, tier, seed, k, nshards, p.CapMin[ti], runDir, only)
+			capMin := p.CapMin[ti]
+			if v, err := strconv.Atoi(os.Getenv("VERIF_CAPMIN")); err == nil && v > 0 {
+				capMin = v // evaluation of seeded changes only: a shorter per-child watchdog (never set by registered commands)
+			}
+			results[k] = runShard(bin, p, tier, seed, k, nshards, capMin, runDir, only)
 		}(k)
 	}
 	wg.Wait()
